@@ -270,17 +270,29 @@ class CPCCARotator(CPCCA):
         scores2_rot = scores2_rot * modes_sign
 
         # Create data container for Rotator and original model data
-        self.model_data.add(name="singular_values", data=model.data["singular_values"])
-        self.model_data.add(name="components1", data=model.data["components1"])
-        self.model_data.add(name="components2", data=model.data["components2"])
+        # Shallow copies: DataContainer.add() renames and set_attrs() re-attributes the
+        # arrays, which must not leak into the data of the unrotated model
+        self.model_data.add(
+            name="singular_values", data=model.data["singular_values"].copy(deep=False)
+        )
+        self.model_data.add(
+            name="components1", data=model.data["components1"].copy(deep=False)
+        )
+        self.model_data.add(
+            name="components2", data=model.data["components2"].copy(deep=False)
+        )
 
         # Assigning input data to the Rotator object allows us to inherit some functionalities from the original model
         # like squared_covariance_fraction(), homogeneous_patterns() etc.
         self.data.add(
-            name="input_data1", data=model.data["input_data1"], allow_compute=False
+            name="input_data1",
+            data=model.data["input_data1"].copy(deep=False),
+            allow_compute=False,
         )
         self.data.add(
-            name="input_data2", data=model.data["input_data2"], allow_compute=False
+            name="input_data2",
+            data=model.data["input_data2"].copy(deep=False),
+            allow_compute=False,
         )
         self.data.add(name="components1", data=Qx_rot)
         self.data.add(name="components2", data=Qy_rot)
@@ -289,7 +301,7 @@ class CPCCARotator(CPCCA):
         self.data.add(name="squared_covariance", data=squared_covariance)
         self.data.add(
             name="total_squared_covariance",
-            data=model.data["total_squared_covariance"],
+            data=model.data["total_squared_covariance"].copy(deep=False),
         )
 
         self.data.add(name="idx_modes_sorted", data=idx_modes_sorted)
